@@ -371,7 +371,8 @@ def run(ctx):
     if not ctx.thorough:
         # every way of asking for every algorithm with the elastic operator (many iterations, failed attempts), every policy
         # without acceleration, every algorithm after an elastic prediction
-        sub = [c for c in sub if (c["pol"] == "NoPrediction" and c["kt"] == "Elastic") or c["acc"]["name"] == "none"
+        sub = [c for c in sub if (c["pol"] == "NoPrediction" and (c["kt"] == "Elastic" or c["acc"]["params"] or c["acc"]["how"] == "castem"))
+               or c["acc"]["name"] == "none"
                or (c["pol"] == "ElasticPrediction" and not c["acc"]["params"])]
     td = ctx.path("trace")
     os.makedirs(td, exist_ok=True)
